@@ -169,6 +169,9 @@ type propCfg struct {
 	ThorS    float64
 	Rule     string
 	Assume   []string
+	// Points: size of the enumerated fault space (fault_enumeration checks).
+	Points     int
+	PointsWhat string
 }
 
 var baseAssume = []string{
@@ -548,6 +551,17 @@ func writeEvidence(id, tier string, seed uint64, pc propCfg, t *workerOut, nviol
 		kf = append(kf, k)
 	}
 	sort.Strings(kf)
+	// enumerated points (fault_enumeration families report them as probes "cutpoint NNN" / "faultpoint NNN")
+	points := map[string]int64{}
+	probes := map[string]int64{}
+	for k, v := range t.Probes {
+		if strings.HasPrefix(k, "cutpoint ") || strings.HasPrefix(k, "faultpoint ") {
+			points[k] = v
+		} else {
+			probes[k] = v
+		}
+	}
+	t.Probes = probes
 	cov := map[string]any{
 		"evaluations":                 t.Runs,
 		"distinct_nontrivial":         len(t.NontrivialFP),
@@ -580,6 +594,19 @@ func writeEvidence(id, tier string, seed uint64, pc propCfg, t *workerOut, nviol
 		"workers":    workers,
 		"build_s":    buildS,
 		"exhaustive": false,
+	}
+	if pc.Points > 0 {
+		minV := int64(1 << 62)
+		for _, v := range points {
+			if v < minV {
+				minV = v
+			}
+		}
+		cov["enumerated_points_total"] = pc.Points
+		cov["enumerated_points_visited"] = len(points)
+		cov["min_runs_per_point"] = minV
+		cov["exhaustive"] = len(points) == pc.Points
+		cov["exhaustive_over"] = pc.PointsWhat
 	}
 	ev := map[string]any{
 		"property_id": id,
@@ -713,6 +740,17 @@ func main() {
 			sort.Strings(ids)
 		}
 		os.Exit(selftest(ids, envInt("VERIF_SELFTEST_N", 40)))
+	case "run": // orch run <prop> <family> <seed>: one unshrunk run, printed (debugging aid)
+		dir, hash := ensureBuild(false)
+		seed, _ := strconv.ParseUint(os.Args[4], 10, 64)
+		j := job{Mode: "one", Prop: os.Args[2], Families: []string{os.Args[3]}, SeedBase: seed, Known: filepath.Join(verifDir, "known_findings.json"), Out: filepath.Join(dir, "one.json"), Tree: hash}
+		out, err := runWorker(filepath.Join(dir, "sim.test"), j, 1, 10*time.Minute)
+		if err != nil {
+			die(2, "%v", err)
+		}
+		for _, s := range out.Samples {
+			fmt.Println(string(s))
+		}
 	case "build":
 		dir, hash := ensureBuild(false)
 		fmt.Println(dir, hash)
